@@ -129,7 +129,14 @@ def param_section(r, style, params, returns=None, types=True, multi_line=False):
                 out.append("")
             out += ["Returns", "-------"]
             out.append(typ if types and typ else "result")
-            out.append("%s%s" % (TAB, doc))
+            w = doc.split()
+            if multi_line and len(w) > 3:
+                # a return description that runs over two or three lines
+                k = max(1, len(w) // (3 if len(w) > 6 else 2))
+                for j in range(0, len(w), k):
+                    out.append("%s%s" % (TAB, " ".join(w[j:j + k])))
+            else:
+                out.append("%s%s" % (TAB, doc))
         return "\n".join(out)
     raise ValueError(style)
 
